@@ -6,6 +6,20 @@
 // error test), where the function returns.  Output: Gen_C18.v with one `list string` per function.
 // Prop_C18.v proves that these lists are the ones the model was written from (M_CacheShape.v); any change of
 // order / context / condition in the sources changes the generated list and breaks that theorem.
+//
+// Token vocabulary (one list of strings per function):
+//
+//	branch / commit / defer-commit / defer-recover       cache branch taken, written, deferred write, deferred recover()
+//	call:cache:<recv>.<F> / call:outer:<recv>.<F>        a call that is handed the branch / the outer context; the callee is
+//	                                                     named WITH its receiver chain (k.bankKeeper.SendCoins, im.Keeper.OnRecvPacket)
+//	kv-set:<class> / kv-delete:<class>                   a direct store write through ctx.KVStore(…) (class = cache | outer)
+//	event                                                EmitEvent / EmitEvents / EmitTypedEvent
+//	set:<lhs>                                            assignment to a field (att.Observed = …, proposal.Status = …)
+//	if(…){ } else{ loop{ func{ case(…){ return* panic continue break
+//
+// Besides the listed boundary functions the translator follows their callees TWO levels down (same package, resolved by
+// receiver type and name) and emits their shapes as `deep_shapes`, plus `deep_unresolved` — the calls that carry a context
+// into another module (keeper interfaces) and are not followed.
 package main
 
 import (
@@ -16,6 +30,7 @@ import (
 	"os"
 	"os/exec"
 	"path/filepath"
+	"sort"
 	"strings"
 )
 
@@ -87,6 +102,83 @@ func main() {
 		}
 		sb.WriteString("].\n\n")
 	}
+	// ---- two levels below the boundary functions --------------------------------------------------------------------
+	type item struct {
+		key  string
+		toks []string
+	}
+	isTarget := map[string]bool{}
+	for _, td := range targetDecls {
+		_, rt := recvOf(td.fd)
+		isTarget[td.dir+":"+rt+"."+td.fd.Name.Name] = true
+	}
+	seen := map[string]bool{}
+	unresolved := map[string]bool{}
+	var deep []item
+	type frontier struct {
+		dir string
+		fd  *ast.FuncDecl
+	}
+	var level []frontier
+	for _, td := range targetDecls {
+		level = append(level, frontier{td.dir, td.fd})
+	}
+	for depth := 1; depth <= 2; depth++ {
+		var next []frontier
+		for _, fr := range level {
+			p := loadPkg(fr.dir)
+			for _, q := range shapeOf(fr.fd).calls {
+				callee, key, ok := resolve(p, fr.fd, q)
+				if !ok {
+					if strings.Count(q, ".") >= 2 || !strings.Contains(q, ".") || strings.HasPrefix(q, "im.") { // leaves the module / package
+						unresolved[q] = true
+					}
+					continue
+				}
+				full := fr.dir + ":" + key
+				if seen[full] || isTarget[full] {
+					continue
+				}
+				seen[full] = true
+				rel, _ := filepath.Rel(repo, fr.dir)
+				if strings.HasPrefix(rel, "..") {
+					rel = "ibc-go/" + filepath.Base(fr.dir)
+				}
+				deep = append(deep, item{rel + ":" + key, shapeOf(callee).toks})
+				next = append(next, frontier{fr.dir, callee})
+			}
+		}
+		level = next
+	}
+	sort.Slice(deep, func(i, j int) bool { return deep[i].key < deep[j].key })
+	sb.WriteString("Definition deep_shapes : list (string * list string) :=\n  [")
+	for i, it := range deep {
+		if i > 0 {
+			sb.WriteString(";\n   ")
+		}
+		sb.WriteString("(\"" + it.key + "\", [")
+		for j, k := range it.toks {
+			if j > 0 {
+				sb.WriteString("; ")
+			}
+			sb.WriteString("\"" + strings.ReplaceAll(k, "\"", "'") + "\"")
+		}
+		sb.WriteString("])")
+	}
+	sb.WriteString("].\n\n")
+	var un []string
+	for q := range unresolved {
+		un = append(un, q)
+	}
+	sort.Strings(un)
+	sb.WriteString("Definition deep_unresolved : list string :=\n  [")
+	for i, q := range un {
+		if i > 0 {
+			sb.WriteString("; ")
+		}
+		sb.WriteString("\"" + q + "\"")
+	}
+	sb.WriteString("].\n")
 	if err := os.WriteFile(filepath.Join(out, "Gen_C18.v"), []byte(sb.String()), 0o644); err != nil {
 		fmt.Fprintln(os.Stderr, err)
 		os.Exit(1)
@@ -106,9 +198,84 @@ func ibcGoDir(repo string) string {
 }
 
 type walker struct {
-	cache  map[string]bool // identifiers bound to a cache context
-	commit map[string]bool // identifiers bound to its write function
+	cache  map[string]bool   // identifiers bound to a cache context
+	commit map[string]bool   // identifiers bound to its write function
+	store  map[string]string // identifiers bound to a KVStore -> class of the context it was taken from
 	toks   []string
+	calls  []string // qualified names of the callees that were handed a context
+}
+
+// ---- the package of a function: all its (non-test) declarations, for following callees --------------------------------
+
+type pkgInfo struct {
+	funcs map[string]*ast.FuncDecl // "Recv.Name" or ".Name"
+}
+
+var pkgCache = map[string]*pkgInfo{}
+
+func loadPkg(dir string) *pkgInfo {
+	if p, ok := pkgCache[dir]; ok {
+		return p
+	}
+	p := &pkgInfo{funcs: map[string]*ast.FuncDecl{}}
+	fset := token.NewFileSet()
+	pkgs, err := parser.ParseDir(fset, dir, func(fi os.FileInfo) bool { return !strings.HasSuffix(fi.Name(), "_test.go") }, 0)
+	if err == nil {
+		for _, pk := range pkgs {
+			for _, f := range pk.Files {
+				for _, d := range f.Decls {
+					if fd, ok := d.(*ast.FuncDecl); ok && fd.Body != nil {
+						r := ""
+						if fd.Recv != nil && len(fd.Recv.List) > 0 {
+							r = typeName(fd.Recv.List[0].Type)
+						}
+						p.funcs[r+"."+fd.Name.Name] = fd
+					}
+				}
+			}
+		}
+	}
+	pkgCache[dir] = p
+	return p
+}
+
+func recvOf(fd *ast.FuncDecl) (varName, typ string) {
+	if fd.Recv == nil || len(fd.Recv.List) == 0 {
+		return "", ""
+	}
+	if len(fd.Recv.List[0].Names) > 0 {
+		varName = fd.Recv.List[0].Names[0].Name
+	}
+	return varName, typeName(fd.Recv.List[0].Type)
+}
+
+func shapeOf(fd *ast.FuncDecl) *walker {
+	w := &walker{cache: map[string]bool{}, commit: map[string]bool{}, store: map[string]string{}}
+	w.block(fd.Body.List)
+	return w
+}
+
+// resolve a qualified callee name seen inside fd (package dir): "k.Foo" with k the receiver variable -> method Foo of the same
+// type; "foo" -> package function; anything else (k.bankKeeper.X, im.IBCModule.X, …) leaves the package
+func resolve(p *pkgInfo, fd *ast.FuncDecl, qual string) (*ast.FuncDecl, string, bool) {
+	rv, rt := recvOf(fd)
+	parts := strings.Split(qual, ".")
+	switch {
+	case len(parts) == 1:
+		if c, ok := p.funcs["."+parts[0]]; ok {
+			return c, "." + parts[0], true
+		}
+	case len(parts) == 2 && parts[0] == rv && rv != "":
+		if c, ok := p.funcs[rt+"."+parts[1]]; ok {
+			return c, rt + "." + parts[1], true
+		}
+	}
+	return nil, "", false
+}
+
+var targetDecls []struct {
+	dir string
+	fd  *ast.FuncDecl
 }
 
 func shape(path, fn, recv string) ([]string, error) {
@@ -129,8 +296,11 @@ func shape(path, fn, recv string) ([]string, error) {
 		} else if fd.Recv != nil {
 			continue
 		}
-		w := &walker{cache: map[string]bool{}, commit: map[string]bool{}}
-		w.block(fd.Body.List)
+		w := shapeOf(fd)
+		targetDecls = append(targetDecls, struct {
+			dir string
+			fd  *ast.FuncDecl
+		}{filepath.Dir(path), fd})
 		return w.toks, nil
 	}
 	return nil, fmt.Errorf("function %s (receiver %q) not found in %s", fn, recv, path)
@@ -168,9 +338,22 @@ func (w *walker) stmt(s ast.Stmt) {
 				w.emit("branch")
 				return
 			}
+			// store := ctx.KVStore(key) / prefix.NewStore(ctx.KVStore(key), …): remember which context the store belongs to
+			if cls := w.storeClass(n.Rhs[0]); cls != "" && len(n.Lhs) == 1 {
+				if a, ok := n.Lhs[0].(*ast.Ident); ok {
+					w.store[a.Name] = cls
+				}
+			}
 		}
 		for _, r := range n.Rhs {
 			w.expr(r)
+		}
+		if n.Tok == token.ASSIGN {
+			for _, l := range n.Lhs {
+				if sel, ok := l.(*ast.SelectorExpr); ok { // a field of a value that is (going to be) stored
+					w.emit("set:" + exprText(sel))
+				}
+			}
 		}
 	case *ast.ExprStmt:
 		w.expr(n.X)
@@ -294,6 +477,23 @@ func (w *walker) expr(e ast.Expr) {
 			return true
 		}
 		name := calleeName(c)
+		qual := qualName(c)
+		if sel, ok := c.Fun.(*ast.SelectorExpr); ok {
+			if sel.Sel.Name == "Set" || sel.Sel.Name == "Delete" {
+				cls := ""
+				if id, ok := sel.X.(*ast.Ident); ok {
+					cls = w.store[id.Name]
+				} else {
+					cls = w.storeClass(sel.X)
+				}
+				if cls != "" {
+					w.emit("kv-" + strings.ToLower(sel.Sel.Name) + ":" + cls)
+				}
+			}
+			if sel.Sel.Name == "EmitEvent" || sel.Sel.Name == "EmitEvents" || sel.Sel.Name == "EmitTypedEvent" || sel.Sel.Name == "EmitTypedEvents" {
+				w.emit("event")
+			}
+		}
 		if id, ok := c.Fun.(*ast.Ident); ok && id.Name == "panic" {
 			w.emit("panic")
 			return true
@@ -305,14 +505,16 @@ func (w *walker) expr(e ast.Expr) {
 		if len(c.Args) > 0 {
 			switch w.ctxClass(c.Args[0]) {
 			case "cache":
-				w.emit("call:cache:" + name)
+				w.emit("call:cache:" + qual)
+				w.calls = append(w.calls, qual)
 				for _, a := range c.Args[1:] {
 					w.expr(a)
 				}
 				return false
 			case "outer":
 				if interesting(name) {
-					w.emit("call:outer:" + name)
+					w.emit("call:outer:" + qual)
+					w.calls = append(w.calls, qual)
 				}
 				for _, a := range c.Args[1:] {
 					w.expr(a)
@@ -351,6 +553,43 @@ func interesting(name string) bool {
 		return false
 	}
 	return true
+}
+
+// storeClass: e contains a call KVStore(…) on a context -> the class of that context ("" = not a store expression)
+func (w *walker) storeClass(e ast.Expr) string {
+	cls := ""
+	ast.Inspect(e, func(n ast.Node) bool {
+		if c, ok := n.(*ast.CallExpr); ok {
+			if sel, ok := c.Fun.(*ast.SelectorExpr); ok && (sel.Sel.Name == "KVStore" || sel.Sel.Name == "TransientStore") {
+				cls = w.ctxClass(sel.X)
+				if cls == "" {
+					cls = "outer"
+				}
+			}
+		}
+		return true
+	})
+	return cls
+}
+
+// qualName: the callee with its receiver chain when that chain is a plain path of identifiers (k.bankKeeper.SendCoins)
+func qualName(c *ast.CallExpr) string {
+	if sel, ok := c.Fun.(*ast.SelectorExpr); ok {
+		path := sel.Sel.Name
+		x := sel.X
+		for {
+			switch t := x.(type) {
+			case *ast.Ident:
+				return t.Name + "." + path
+			case *ast.SelectorExpr:
+				path = t.Sel.Name + "." + path
+				x = t.X
+				continue
+			}
+			return sel.Sel.Name
+		}
+	}
+	return calleeName(c)
 }
 
 func calleeName(c *ast.CallExpr) string {
